@@ -103,3 +103,13 @@ M("codec-header-revert-d1", "header.go", "	return swag.ConcatJSON(b1, b2, b3, b4
 M("codec-responses-drop-default-ext", "responses.go", "	if res.Default != nil {", "	if res.Default != nil && len(res.StatusCodeResponses) == 0 {", ["C01"])
 M("codec-secscheme-tokenurl", "security_scheme.go", '`json:"tokenUrl,omitempty"`', '`json:"tokenURL,omitempty"`', ["C01"])
 M("codec-pathitem-head-as-options", "path_item.go", '`json:"head,omitempty"`', '`json:"head2,omitempty"`', ["C01"])
+
+# ---- C20 validations ---------------------------------------------------------
+M("val-schema-set-forgets-minitems", "schema.go", "	s.MinItems = val.MinItems\n	s.UniqueItems = val.UniqueItems", "	s.UniqueItems = val.UniqueItems", ["C20"])
+M("val-cleararray-clears-enum", "validations.go", "		v.UniqueItems = false\n	}\n}", "		v.UniqueItems = false\n	}\n	v.Enum = nil\n}", ["C20"])
+M("val-hasnumber-ignores-multipleof", "validations.go", "	return v.Maximum != nil || v.Minimum != nil || v.MultipleOf != nil", "	return v.Maximum != nil || v.Minimum != nil", ["C20"])
+M("val-clearstring-keeps-maxlength-zero", "validations.go", "	if v.MaxLength != nil {\n		done = append(done, clearedValidation{Validation: \"maxLength\"", "	if v.MaxLength != nil && *v.MaxLength != 0 {\n		done = append(done, clearedValidation{Validation: \"maxLength\"", ["C20"])
+M("val-callback-wrong-name", "validations.go", "clearedValidation{Validation: \"minItems\", Value: v.MinItems}", "clearedValidation{Validation: \"maxItems\", Value: v.MinItems}", ["C20"])
+M("val-clearobject-keeps-patternprops", "validations.go", "		v.PatternProperties = nil\n", "", ["C20"])
+M("val-common-set-skips-exclusivemin", "validations.go", "	v.ExclusiveMinimum = val.ExclusiveMinimum\n", "", ["C20"])
+M("val-callbacks-only-first", "validations.go", "	for _, cb := range cbs {\n		for _, cleared := range c {", "	for _, cb := range cbs[:min(1, len(cbs))] {\n		for _, cleared := range c {", ["C20"])
